@@ -976,6 +976,22 @@ def replay_one(prop, path):
             return 1
         print("not reproduced on the current tree: %s" % path)
         return 0
+    if prop in CL and "steps" in v and "inst" not in v:
+        # a behaviour of MC_clproto: replay it alone on fresh keys
+        build_harness(cl=True)
+        cases = os.path.join(BUILD, "replay_one_proto.ndjson")
+        with open(cases, "w") as f:
+            f.write(json.dumps(v["steps"]) + "\n")
+        rep = os.path.join(BUILD, "replay_one_proto.json")
+        sh([ZKVCL, "proto", rep, "--derivs", cases, "--keys", "2", "--suite", "1024"], env=dict(cl_env(), VERIF_SEED=str(seed())), timeout=3000)
+        r = json.load(open(rep))
+        mm = [m for m in r["mismatches"] if prop in m["properties"]]
+        if mm:
+            print("VIOLATION property=%s replay=%s" % (prop, path))
+            print("  reproduced: decision of %s expected=%s observed=%s" % (mm[0]["op"], mm[0]["expected"], str(mm[0]["observed"])[:60]))
+            return 1
+        print("not reproduced on the current tree: %s" % path)
+        return 0
     if "trace" in v and os.path.exists(v["trace"]):
         if prop in CL:
             ok, matched, ev = cl_validate(v["trace"], "{}", "replay_trace")
